@@ -2,6 +2,10 @@
   Mirrors nextest-runner/src/list/test_list.rs `TestPriorityQueue::new` (+ `TestList::iter_tests`):
   tests in (binary id, test name) order — the `BTreeMap` orders — stably sorted by `TestPriority`,
   whose `Ord` is reversed (higher priority first; config/priority.rs).
+
+  The order of binary ids is NOT the order of their strings: nextest-metadata's `impl Ord for RustBinaryId` compares
+  `RustBinaryIdComponents` — the package name first, then `None < NameOnly { binary_name } < NameAndKind { kind, binary_name }`
+  (derived `Ord`) — so `foo::integ` sorts before `foo-bar` although `'-' < ':'`.
 -/
 namespace NextestModel.Priority
 
@@ -11,6 +15,34 @@ structure PTest where
   /-- resolved `priority` setting (C06), shifted by +100 to a natural number -/
   priority : Nat
   deriving DecidableEq, Repr
+
+/-- Rust `splitn(2, sep)`: the text before the first occurrence of `sep`, and the text after it if there is one -/
+def splitOnce (sep : List UInt8) : List UInt8 → List UInt8 × Option (List UInt8)
+  | [] => ([], none)
+  | c :: cs =>
+    if sep.isPrefixOf (c :: cs) then ([], some ((c :: cs).drop sep.length))
+    else let r := splitOnce sep cs; (c :: r.1, r.2)
+
+/-- `RustBinaryIdComponents::new` as a comparison key: byte strings compared lexicographically, left to right;
+    the second entry is the variant tag of `RustBinaryIdNameAndKind` -/
+def binKey (id : List UInt8) : List (List UInt8) :=
+  match splitOnce [58, 58] id with
+  | (pkg, none) => [pkg, [0]]
+  | (pkg, some suffix) =>
+    match splitOnce [47] suffix with
+    | (name, none) => [pkg, [1], name]
+    | (kind, some name) => [pkg, [2], kind, name]
+
+/-- `RustBinaryId::cmp` -/
+def binLe (a b : List UInt8) : Bool := decide (binKey a ≤ binKey b)
+
+/-- `str::cmp` on test names (the inner `BTreeMap<String, _>`) -/
+def nameLe (a b : List UInt8) : Bool := decide (a ≤ b)
+
+/-- `TestList::iter_tests`: binaries in `RustBinaryId` order, each binary's tests in name order -/
+def iterOrder (bins : List (List UInt8 × List (List UInt8))) (prioOf : List UInt8 → List UInt8 → Nat) : List PTest :=
+  (bins.mergeSort (fun a b => binLe a.1 b.1)).flatMap fun bn =>
+    (bn.2.mergeSort nameLe).map fun n => { binary := bn.1, name := n, priority := prioOf bn.1 n }
 
 /-- `a` is dispatched no later than `b` by priority alone: higher priority first -/
 def prioLe (a b : PTest) : Bool := decide (b.priority ≤ a.priority)
